@@ -233,13 +233,18 @@ Matches(out, obs) == out.rc = -1 \/ (out.rc = obs.rc /\ out.bytes = obs.bytes /\
 
 \* ok    : the observation satisfies the property (or the case is outside what the manual defines)
 \* fit   : smallest set of named deviations under which the operational model reproduces the observation
-\*         exactly; <<"none">> if no set does.  ok /\ fit = none  is a drift of the model, ~ok /\ fit = D is the
-\*         known defect(s) D, ~ok /\ fit = none an unexplained violation.
-Verdict(c, obs) ==
-  LET def  == Definite(c)
-      ok   == ~def \/ Allowed(c, obs)
-      fits == {D \in SUBSET Devs : Matches(Run(D, c), obs)}
-      best == CHOOSE D \in fits : \A E \in fits : Cardinality(D) <= Cardinality(E)
+\*         exactly; <<"none">> if no set does.  Several sets may fit (nothing selected by a broken filter looks like
+\*         an unmeasured granularity when the record lies outside the window): a set inside K, the deviations still
+\*         listed as known defects of the tree, is preferred.
+\*         ok /\ fit = none  is a drift of the model, ~ok /\ fit = D is the defect(s) D, ~ok /\ fit = none an
+\*         unexplained violation.
+MinCard(S) == CHOOSE D \in S : \A E \in S : Cardinality(D) <= Cardinality(E)
+Verdict(c, obs, K) ==
+  LET def   == Definite(c)
+      ok    == ~def \/ Allowed(c, obs)
+      fits  == {D \in SUBSET Devs : Matches(Run(D, c), obs)}
+      fitsK == {D \in fits : D \subseteq K}
   IN [definite |-> def, ok |-> ok,
-      fit |-> IF Matches(Run({}, c), obs) THEN <<>> ELSE IF fits = {} THEN <<"none">> ELSE SetToSeq(best)]
+      fit |-> IF Matches(Run({}, c), obs) THEN <<>> ELSE IF fits = {} THEN <<"none">>
+              ELSE SetToSeq(IF fitsK # {} THEN MinCard(fitsK) ELSE MinCard(fits))]
 =============================================================================
